@@ -77,37 +77,42 @@ theorem notifyGraphCompletion_spec (n : Int) (ex : List SEvent) (gi : Nat) (fini
 theorem AP.setGraphR {ex : List SEvent} {n : Int} (s s' : SimS) (gi : Nat) (g g' : GraphS)
     (h : AP RunOK ex s ∧ s.now = n) (hg : s.graphs[gi]? = some g) (hf : RFrame g g')
     (hp : s'.pools = s.pools) (hgr : s'.graphs = s.graphs.setIfInBounds gi g') (hn : s'.now = s.now)
-    (hl : s'.log = s.log) (hq : s'.queue = s.queue) (hfu : s'.future = s.future) (hns : s'.nextSched = s.nextSched)
+    (hl : s'.log = s.log) (hq : s'.queue = s.queue)
+    (hef : ∀ x, EF s'.future s'.nextSched x → EF s.future s.nextSched x)
     (hid : s'.nextEid = s.nextEid) (ha : s'.allGraphs = s.allGraphs) (hj : s'.jobs = s.jobs)
     (hlr : s'.loaderReleased = s.loaderReleased) : AP RunOK ex s' ∧ s'.now = n := by
   refine ⟨AP.step s s' h.1 hp (by rw [hgr]; exact TRel.setGraph _ _ g _ hg hf) hn ⟨[], by simp [hl], by simp⟩
-    (by rw [hq]; exact fun _ h' _ => h') (by rw [hfu, hns]; exact fun _ h' => h') (by rw [hid]; exact Nat.le_refl _)
+    (by rw [hq]; exact fun _ h' _ => h') hef (by rw [hid]; exact Nat.le_refl _)
     ha hj (h.1.loaderOf hg s' hlr), by rw [hn]; exact h.2⟩
 
 /-- `TaskGraph.cancel` written back. -/
 theorem AP.cancelGraph {ex : List SEvent} {n : Int} (s s' : SimS) (gi k : Nat) (time : Int) (g : GraphS)
     (h : AP RunOK ex s ∧ s.now = n) (hg : s.graphs[gi]? = some g)
     (hp : s'.pools = s.pools) (hgr : s'.graphs = s.graphs.setIfInBounds gi (g.cancel k time).g) (hn : s'.now = s.now)
-    (hl : s'.log = s.log) (hq : s'.queue = s.queue) (hfu : s'.future = s.future) (hns : s'.nextSched = s.nextSched)
+    (hl : s'.log = s.log) (hq : s'.queue = s.queue)
+    (hef : ∀ x, EF s'.future s'.nextSched x → EF s.future s.nextSched x)
     (hid : s'.nextEid = s.nextEid) (ha : s'.allGraphs = s.allGraphs) (hj : s'.jobs = s.jobs)
     (hlr : s'.loaderReleased = s.loaderReleased) : AP RunOK ex s' ∧ s'.now = n :=
-  AP.setGraphR s s' gi g _ h hg (GraphS.rframe_cancel g k time (h.1.allPre gi g hg)) hp hgr hn hl hq hfu hns hid ha hj hlr
+  AP.setGraphR s s' gi g _ h hg (GraphS.rframe_cancel g k time (h.1.allPre gi g hg)) hp hgr hn hl hq hef hid ha hj hlr
 
 theorem AP.cancelGraphW {ex : List SEvent} {n : Int} (s s' : SimS) (gi k : Nat) (time : Int) (g : GraphS)
     (h : AP RunOK ex s ∧ s.now = n) (hg : s.graphs[gi]? = some g)
     (hp : s'.pools = s.pools) (hgr : s'.graphs = s.graphs.setIfInBounds gi (g.cancel k time).g) (hn : s'.now = s.now)
-    (hl : s'.log = s.log) (hq : s'.queue = s.queue) (hfu : s'.future = s.future) (hns : s'.nextSched = s.nextSched)
+    (hl : s'.log = s.log) (hq : s'.queue = s.queue)
+    (hef : ∀ x, EF s'.future s'.nextSched x → EF s.future s.nextSched x)
     (hid : s'.nextEid = s.nextEid) (ha : s'.allGraphs = s.allGraphs) (hj : s'.jobs = s.jobs)
     (hlr : s'.loaderReleased = s.loaderReleased) : WInv s' :=
-  (AP.cancelGraph s s' gi k time g h hg hp hgr hn hl hq hfu hns hid ha hj hlr).1.weak
+  (AP.cancelGraph s s' gi k time g h hg hp hgr hn hl hq hef hid ha hj hlr).1.weak
 
 /-- Closes a goal `AP RunOK ex s' ∧ s'.now = n` / `WInv s'` where `s'` differs from the state of the most
 recent invariant hypothesis by a written-back `TaskGraph.cancel`. -/
 macro "cancel_close" : tactic => `(tactic| first
   | (have h := ‹AP RunOK _ _ ∧ _›
-     exact AP.cancelGraph _ _ _ _ _ _ h ‹_› rfl rfl rfl rfl rfl rfl rfl rfl rfl rfl rfl)
+     exact AP.cancelGraph _ _ _ _ _ _ h ‹_› rfl rfl rfl rfl rfl
+       (by first | exact fun _ h' => h' | exact EF_erase _ _ _) rfl rfl rfl rfl)
   | (have h := ‹AP RunOK _ _ ∧ _›
-     exact AP.cancelGraphW _ _ _ _ _ _ h ‹_› rfl rfl rfl rfl rfl rfl rfl rfl rfl rfl rfl))
+     exact AP.cancelGraphW _ _ _ _ _ _ h ‹_› rfl rfl rfl rfl rfl
+       (by first | exact fun _ h' => h' | exact EF_erase _ _ _) rfl rfl rfl rfl))
 
 /-- The post-condition of the functions that return new events: none is a TASK_FINISHED. -/
 abbrev NoFin (evs : List SEvent) : Prop := ∀ e ∈ evs, e.ev.etype ≠ ET.taskFinished
